@@ -163,6 +163,10 @@ func runAPILeg(r *vf.Run) {
 		return out
 	}
 
+	// more pooled transactions (the world leaves three): a first batch now, a second one after the
+	// walks below, so that the pool holds transactions received at different times
+	injectPool(r, w, proc.APIAddr, 1, 7)
+
 	// queries
 	rng := r.Rand("api-queries")
 	var sets []apiQuery
@@ -381,6 +385,10 @@ func runAPILeg(r *vf.Run) {
 			}
 		}
 	})
+	// the whole parameter space (verbose x sort x confirmed x addrs x page size), all pages, interleaved
+	injectPool(r, w, proc.APIAddr, 2, 7)
+	runAPICross(r, w, proc.APIAddr, confirmedSet, poolSet, seqOf)
+
 	r.Floor("api.requests", int64(r.Pick(3000, 30000)))
 	r.Floor("api.lists_reassembled", int64(r.Pick(100, 800)))
 	r.Floor("api.multi_page_lists_reassembled", int64(r.Pick(50, 400)))
